@@ -48,7 +48,7 @@ class blockiterator(object):
             nPi = self.lastblock(Pi,**kargs)
             b,lastb= nPi[:self.blocklen],nPi[self.blocklen:]
             if len(Pi)==0: self.bitcnt = 0
-            yield b
+            if len(b)>0: yield b
             if len(lastb)>0:
                 self.bitcnt = 0
                 yield lastb
